@@ -516,13 +516,13 @@ SHARED_ON_PURPOSE = {
 
 
 @rule("R-C12-9", min_instances=5, title="no hidden sharing: apart from four documented process-wide settings, no function writes class-level or module-level mutable state (a frame under construction, a TLS context, ... must belong to one connection / one call)")
-def r9(ctx):
+def r9(ctx, modules=None):
     import ast as _ast
     from ..shared_state import shared_writes
     idx = ctx.index
     seen = set()
     for mod, mi in sorted(idx.modules.items()):
-        if mod in ("_wsdump", "__init__"):
+        if mod in ("_wsdump", "__init__") or (modules is not None and mod not in modules):
             continue
         writes = shared_writes(mi.tree)
         per_fn = {}
@@ -534,10 +534,81 @@ def r9(ctx):
             ctx.ob(f"{mod}:{fnq}:writes-shared-state", ok, f"{lst[0][1]} -- {SHARED_ON_PURPOSE.get((mod, fnq), '')}" if ok else
                    f"{mod}.{fnq} {lst[0][1]} (line {lst[0][0]}): state shared by every object / call is written without any lock -- two threads (or two connections) "
                    f"using the library at once overwrite each other's data", f"{mi.path}:{lst[0][0]}")
-    missing = set(SHARED_ON_PURPOSE) - seen
+    missing = {k for k in SHARED_ON_PURPOSE if modules is None or k[0] in modules} - seen
     if missing:
         raise AnalysisError(f"anchor vanished: the process-wide settings {sorted(missing)} are no longer written where they were confirmed")
     # positive control for the zero-count part
     probe = _ast.parse("class F:\n _buf = bytearray()\n def fmt(self):\n  b = F._buf\n  del b[:]\n  b += b'x'\n  return bytes(b)\n")
     ctx.ob("control:shared-buffer-pattern-matches", len(shared_writes(probe)) >= 2, "embedded violating snippet is recognised", "")
 
+
+
+@rule("R-C12-10", min_instances=2, title="no lock survives a failed call: on every exit of send_frame and of the receive entry points -- return or exception (a write that raises, a lost connection) -- every lock taken has been released, so the next call raises or proceeds instead of blocking forever")
+def r10(ctx):
+    from ..rulekit import CLOSED_EXC, TIMEOUT_EXC
+    from ..appmodel import raise_exc
+    stubs = dict(BASE_STUBS)
+    stubs["_abnf:ABNF.format"] = lambda I, run, a, k, n: Sym("wire", "bytes")
+
+    def _send(I, run, args, kwargs, node):
+        k = len([e for e in run.effects if e.name == "_send"])
+        run.effect("_send", args[1:], kwargs, node=node)
+        ch = run.choose(4, I.locof(node), "transport write: accepted / connection closed / timeout / OSError")
+        if ch == 1:
+            raise_exc(I, run, CLOSED_EXC, node)
+        if ch == 2:
+            raise_exc(I, run, TIMEOUT_EXC, node)
+        if ch == 3:
+            raise_exc(I, run, "builtins.BrokenPipeError", node)
+        return isym(run, f"accepted{k}", 1, INF)
+
+    stubs[f"{W}._send"] = _send
+    I = Interp(ctx.index, Config(stubs=stubs, loop_unroll=2))
+
+    def body(run):
+        ws = mk_websocket(I, run)
+        run.assume_range(App("len", (Sym("wire", "bytes"),), "int"), 2, INF)
+        fr = new_obj(run, "_abnf:ABNF", "frame", get_mask_key=Ext("os.urandom"), fin=C(1), opcode=isym(run, "opcode", 0, 15),
+                     rsv1=C(0), rsv2=C(0), rsv3=C(0), mask_value=C(1), data=Sym("payload", "bytes"))
+        return I.call(run, I.getattr(run, ws, "send_frame", None), [fr], {}, None)
+
+    outs = ctx.count_paths(I.explore(body))
+    q = f"{W}.send_frame"
+    leaks = [o for o in outs if o.kind in ("return", "raise") and o.run.held]
+    raised = [o for o in outs if o.kind == "raise"]
+    if not raised:
+        raise AnalysisError("no path of send_frame on which the transport write fails")
+    ctx.ob(f"{q}:locks-released-on-every-exit", not leaks, f"{len(outs)} exits ({len(raised)} by exception): no lock is held afterwards" if not leaks else
+           f"send_frame ends as {leaks[0].kind} {leaks[0].exc_class or ''} while still holding {len(leaks[0].run.held)} lock(s): the send lock is never released, every later "
+           f"send / ping / close on this object blocks forever instead of raising", leaks[0].raise_loc or ctx.index.loc(ctx.index.func(q).node) if leaks else ctx.index.loc(ctx.index.func(q).node),
+           {"path": path_text(leaks[0])} if leaks else None)
+    # receive side: the frame reader's own lock when a read fails, and the read lock when the frame reader fails
+    def failing_read(I2, run, args, kwargs, node):
+        run.effect("recv_strict", args[1:], node=node)
+        ch = run.choose(3, I2.locof(node), "read: data / connection closed / timeout")
+        if ch == 1:
+            raise_exc(I2, run, CLOSED_EXC, node)
+        if ch == 2:
+            raise_exc(I2, run, TIMEOUT_EXC, node)
+        return Sym(f"bytes{len(run.effects)}", "bytes")
+
+    Ir = Interp(ctx.index, Config(stubs=dict(BASE_STUBS, **{"_abnf:frame_buffer.recv_strict": failing_read}), loop_unroll=2))
+    outs_r = ctx.count_paths(Ir.explore(lambda run: Ir.call(run, Ir.getattr(run, Ir.getattr(run, mk_websocket(Ir, run), "frame_buffer", None), "recv_header", None), [], {}, None)))
+
+    def failing_frame(I2, run, args, kwargs, node):
+        run.effect("recv_frame", (), node=node)
+        ch = run.choose(3, I2.locof(node), "frame reader: frame / connection closed / timeout")
+        if ch == 1:
+            raise_exc(I2, run, CLOSED_EXC, node)
+        if ch == 2:
+            raise_exc(I2, run, TIMEOUT_EXC, node)
+        return new_obj(run, "_abnf:ABNF", "frame", fin=C(1), opcode=C(10), data=Sym("fdata", "bytes"), rsv1=C(0), rsv2=C(0), rsv3=C(0))
+
+    Iw = Interp(ctx.index, Config(stubs=dict(BASE_STUBS, **{f"{W}.recv_frame": failing_frame}), single_iteration=set(RECV_LOOP)))
+    for entry, args in (("recv_data_frame", [TRUE]), ("recv_data", [TRUE]), ("recv", [])):
+        outs_r += ctx.count_paths(Iw.explore(lambda run, entry=entry, args=args: Iw.call(run, Iw.getattr(run, mk_websocket(Iw, run), entry, None), list(args), {}, None)))
+    leaks_r = [o for o in outs_r if o.kind in ("return", "raise") and o.run.held]
+    qr = f"{W}.recv_data_frame"
+    ctx.ob(f"{qr}:locks-released-on-every-exit", not leaks_r and bool(outs_r), f"{len(outs_r)} exits: no lock is held afterwards" if not leaks_r else
+           f"recv_data_frame ends as {leaks_r[0].kind} {leaks_r[0].exc_class or ''} while still holding a lock", ctx.index.loc(ctx.index.func(qr).node),
+           {"path": path_text(leaks_r[0])} if leaks_r else None)
